@@ -155,6 +155,80 @@ async def check_isolation(ctx, case):
         ctx.nontrivial(["isolation", case["s"], k])
 
 
+async def check_failure_isolation(ctx, case):
+    """K concurrent evaluations whose requirement evaluators await look-ups SHARED between all of them (one pending future per key, as a
+    cache in front of a backend hands out); one of the evaluations fails (a structurally invalid modal-mark part beside a valid one).
+    The failure is that evaluation's own business: every other evaluation must end like it does when nothing yields."""
+    rng = ctx.case_rng(case)
+    ctx.set_case("failure-isolation", case)
+    exprs = [case["bad"]] + list(case["good"])
+    table = table_for(case["rc_keys"])
+    fcs = {k: i % 2 == 0 for i, k in enumerate(case["fc_keys"])}
+
+    def worlds():
+        common = {}
+        out = []
+        for i in range(len(exprs)):
+            w = E.World(f"task{i}", rc=dict(table), fc=dict(fcs), fc_msg={k: f"E{k}" for k in fcs})
+            w.shared_lookups = True
+            w.shared = common
+            out.append(w)
+        return out
+
+    baselines = []
+    for i, s in enumerate(exprs):
+        w = E.World(f"task{i}", rc=dict(table), fc=dict(fcs), fc_msg={k: f"E{k}" for k in fcs})
+        baselines.append(summarise(await sched.run_under(None, lambda s=s, w=w: pipeline(s, w))))
+    if baselines[0] != "exc:InvalidExpressionError":
+        ctx.count("failure_isolation_skipped")
+        return
+    for chooser in (sched.FifoChooser(), sched.LifoChooser(), sched.RandomChooser(rng), sched.RandomChooser(rng), sched.RandomChooser(rng)):
+        ws = worlds()
+
+        async def all_tasks(ws=ws):
+            tasks = [asyncio.ensure_future(pipeline(s, w)) for s, w in zip(exprs, ws)]
+            return await asyncio.gather(*tasks, return_exceptions=True)
+
+        sc = sched.Sched(chooser)
+        out = await sched.run_under(sc, all_tasks)
+        ctx.evaluation(len(exprs))
+        ctx.count("failure_isolation_runs")
+        if out[0] != "ok":
+            ctx.violation(f"isolation-raises-{type(out[1]).__name__}", f"concurrent evaluations {exprs} {describe(out)[:300]}")
+            return
+        for i, (res, base) in enumerate(zip(out[1], baselines)):
+            got = ("exc:" + type(res).__name__) if isinstance(res, BaseException) else "ok:" + repr(res)
+            if got != base:
+                ctx.violation("failure-leak", f"concurrent evaluations {exprs} sharing their pending look-ups, release order {[str(x) for x in sc.order][:12]}: evaluation {i} ({exprs[i]!r}) ends with {got[:300]}, on its own it ends with {base[:300]} (evaluation 0 fails with InvalidExpressionError, which is its own business)")
+                return
+        if sc.max_parked >= 2:
+            ctx.nontrivial(["failure-isolation", exprs, [str(x) for x in sc.order]])
+
+
+def gen_failure_case(rng):
+    pools = G.Pools(rc=["1", "2", "3", "4", "6"], hint=["501", "502"], fc=["901", "902"])
+
+    def valid():
+        return G.gen_valid(rng, rng.randint(0, 2), pools, max_leaves=4, invalid_pred=logic.structurally_invalid)
+
+    def invalid():
+        for _ in range(200):
+            t = G.gen_eval(rng, rng.randint(1, 2), pools, max_leaves=4)
+            if logic.structurally_invalid(t) and G.keys_of(t, "rc"):
+                return t
+        return ["or", ["rc", "1"], ["hint", "501"]]
+
+    n = rng.randint(2, 3)
+    pos = rng.randrange(n)
+    marks = ["MUSS", "SOLL", "KANN"]
+    bad_parts = [[marks[i], invalid() if i == pos else valid()] for i in range(n)]
+    good = []
+    for _ in range(rng.randint(1, 3)):
+        parts = GA.gen_parts(rng, valid, max_parts=2, p_bare=0.0, p_prefix=0.3)
+        good.append(GA.render_parts(parts, rng, style=EXACT))
+    return {"bad": GA.render_parts(bad_parts, rng, style=EXACT), "good": good, "rc_keys": list(pools.rc), "fc_keys": list(pools.fc)}
+
+
 async def check_validity_product(ctx, case):
     """is_valid_expression: the evaluations it runs concurrently must see exactly the Cartesian product of assignments"""
     s = case["s"]
@@ -312,6 +386,8 @@ async def run(ctx):
             case = gen_case(rng)
             case["k"] = rng.randint(2, 5)
             await check_isolation(ctx, case)
+        for i in range(ctx.budget(120, 6_000)):
+            await check_failure_isolation(ctx, gen_failure_case(rng))
         for i in range(ctx.budget(100, 5_000)):
             for _ in range(50):
                 case = gen_case(rng)
@@ -343,6 +419,8 @@ async def replay(ctx, phase, case):
             await check_orders(ctx, case)
         elif phase == "isolation":
             await check_isolation(ctx, case)
+        elif phase == "failure-isolation":
+            await check_failure_isolation(ctx, case)
         elif phase == "direct-sites":
             await check_direct_sites(ctx, case)
         else:
